@@ -109,12 +109,12 @@ PreOK(rel) == rel = "unset" \/ IssMatch(rel)
 
 \* "hdr_jsrem" / "hdr_jslo": resource_metadata is a script-capable scheme in hierarchical form with a
 \* non-loopback / loopback authority
-ChallengesCore == {"none", "bearer", "hdr_https", "hdr_other", "hdr_multi", "hdr_lo", "hdr_http", "hdr_js", "hdr_jsrem",
+ChallengesCore == {"none", "bearer", "hdr_https", "hdr_other", "hdr_multi", "hdr_lo", "hdr_http", "hdr_js", "hdr_jsrem", "hdr_jslo",
                    "scope403", "other403", "malformed"}
 \* lead challenges: variants for which the code-shaped model is expected to violate an invariant.
-\* "hdr_jslo": GetProtectedResourceMetadata checks the metadata URL with checkHTTPSOrLoopback only, which a
-\* loopback authority satisfies under any scheme: the URL is requested through the client (OnlySafeURLs)
-ChallengeLeads == {"hdr_jslo"}
+\* ("hdr_jslo" was one until the repair of /repo: GetProtectedResourceMetadata checked the metadata URL with
+\* checkHTTPSOrLoopback only, which a loopback authority satisfies under any scheme; it now applies checkURLScheme first.)
+ChallengeLeads == {}
 Challenges == ChallengesCore \cup ChallengeLeads
 McpURLs == {"https", "lo", "http"}
 McpCls(m) == CASE m = "https" -> Https [] m = "lo" -> Lo [] m = "http" -> Http
@@ -299,7 +299,7 @@ FetchPRM(loc, o) ==
   /\ LET cls == IF loc = "hdr" THEN ChHdr(ch) ELSE McpCls(mcp)
          next == /\ idx' = idx + 1
                  /\ UNCHANGED <<pc, ch, mcp, srv, used, result, failed>>
-     IN IF ~CodeHttpsOrLo(cls)                          \* checkHTTPSOrLoopback(metadataURL) fails: no request
+     IN IF ~CodeSchemeOK(cls) \/ ~CodeHttpsOrLo(cls)     \* checkURLScheme / checkHTTPSOrLoopback(metadataURL) fails: no request
         THEN o = "skip" /\ next /\ UNCHANGED requested
         ELSE /\ o \in PRMOutcomes
              /\ requested' = requested \cup {[kind |-> "prm", cls |-> cls]}
@@ -339,7 +339,7 @@ FetchASM(loc, o, ip, cimd, rg) ==
                        /\ UNCHANGED <<idx, asm, used>>
                   ELSE Fail("asm") /\ UNCHANGED <<idx, asm, used, cause>>
      IN
-     IF ~CodeHttpsOrLo(srv.cls)                                  \* checkHTTPSOrLoopback(metadataURL) fails: no request
+     IF ~CodeSchemeOK(srv.cls) \/ ~CodeHttpsOrLo(srv.cls)        \* checkURLScheme / checkHTTPSOrLoopback(metadataURL) fails: no request
      THEN /\ o = "skip" /\ ip = FALSE /\ cimd = FALSE /\ rg = "ep"
           /\ Fail("asm") /\ UNCHANGED <<idx, asm, used, requested, cause, served>>
      ELSE /\ o \in ASMOutcomes
